@@ -1,6 +1,14 @@
 """Property -> rules table (DESIGN 3) with the evidence texts."""
 
 PROPS = {
+    'C15': {
+        'rules': ['R-delegate-agree', 'R-counter-ops', 'R-queue-bound', 'R-consumer-state'],
+        'explanation': 'x', 'level_text': 'x', 'level_note': 'x', 'technique': 'x',
+    },
+    'C16': {
+        'rules': ['R-lock-guards', 'R-expiry-partition', 'R-late-acquire'],
+        'explanation': 'x', 'level_text': 'x', 'level_note': 'x', 'technique': 'x',
+    },
     'C11': {
         'rules': ['R-chunk-length', 'R-chunk-kinds', 'R-cmd-shapes', 'R-wire-schema', 'R-bounded-write'],
         'explanation': 'x', 'level_text': 'x', 'level_note': 'x', 'technique': 'x',
